@@ -828,6 +828,9 @@ def native_post(contract: Contract, inputs: dict, label: str, extra: dict | None
         env[f.__name__] = f
     env.update(extra or {})
     env.update(inputs)
+    for p in contract.pre:        # preconditions are about the pre-state
+        if not eval(p, env):
+            return None, nat
     if len(nat) > 2:
         env.update(nat[2])        # post-state of mutated arguments / ghost names (e.g. L, old)
         nat = nat[:2]
@@ -840,7 +843,4 @@ def native_post(contract: Contract, inputs: dict, label: str, extra: dict | None
     expr = dict(contract.post)[label]
     if nat[0] != 'return':
         expr = drop_result_disjuncts(expr)
-    for p in contract.pre:
-        if not eval(p, env):
-            return None, nat
     return bool(eval(expr, env)), nat
